@@ -13,7 +13,7 @@
    internal callers.
    Only what the decoders look at is modelled: per validator the power (an int64), whether its
    public key decodes, the length of its address. *)
-From Coq Require Import List ZArith Bool Lia.
+From Coq Require Import List ZArith NArith Bool Lia.
 From TM Require Import Generated.Consts.
 Import ListNotations.
 Open Scope Z_scope.
@@ -90,3 +90,22 @@ Definition valset_from_existing_with (on_overflow : decode_result) (vals : list 
   end.
 Definition valset_from_existing := valset_from_existing_with DErr.
 Definition valset_from_existing_f85 := valset_from_existing_with DPanic.
+
+(* types/evidence.go LightClientAttackEvidenceFromProto, as far as the conflicting block goes:
+     LightBlockFromProto: the signed header, when present, is decoded first (an invalid header is
+       an error before the validator set is looked at), then ValidatorSetFromProto;
+     ValidateBasic:  if l.ConflictingBlock.Header == nil { return error } ...
+   ConflictingBlock embeds *SignedHeader: with NO signed header on the wire the test
+   `l.ConflictingBlock.Header == nil` dereferences a nil pointer (second cause of F85: the
+   decoder panics on evidence whose conflicting block has a well-formed validator set and no
+   signed header).  Repaired: `SignedHeader == nil ||` in front of it.
+   [sh]: 0 no signed header, 1 a signed header without header, 2 a signed header whose header is
+   invalid.  (Evidence with a valid signed header is not in the scope of this model.) *)
+Definition lcae_from_proto_with (on_overflow on_nil_sh : decode_result) (ws : wvalset) (sh : N) : decode_result :=
+  if (sh =? 2)%N then DErr
+  else match valset_from_proto_with on_overflow ws with
+       | DOk _ => if (sh =? 0)%N then on_nil_sh else DErr
+       | r => r
+       end.
+Definition lcae_from_proto := lcae_from_proto_with DErr DErr.
+Definition lcae_from_proto_f85 := lcae_from_proto_with DPanic DPanic.
